@@ -247,6 +247,11 @@ func r2psi(c *core.Ctx, models map[string]*drvModel) {
 			c.Check(len(errNgap) == 0, R, key+":ngap-range", uses[0].pos, "within 0..255, no lossy narrowing", "%s: %s", n, strings.Join(errNgap, "; "))
 		}
 	}
+	xs := map[string]*xModel{}
+	for _, n := range []string{"EstablishPDU", "ServiceRequest", "ReleasePDU", "ModifyPDU"} {
+		xs[n] = driverModelX(c, models[n].fn)
+	}
+	r2psiAcrossX(c, R, xs)
 }
 
 func r2report(c *core.Ctx, m *drvModel) {
